@@ -20,8 +20,8 @@ Definition sk_pkg_validate_with_configuration : string := "return call ValidateW
 Definition sk_pkg_validate_compiled_with_configuration : string := "return call ValidateCompiledWithConfiguration".
 Definition sk_recover_as_error : string := "call recover; if r != nil { if isError {  } else { call Errorf } }".
 Definition sk_close_event_chan : string := "if eventChan != nil { call close }".
-Definition sk_dispatch_event : string := "if eventChan != nil {  }".
-Definition sk_milestones : string := "call make; range *eventChan { switch { case e.ProfileParsingStart,e.InputDataParsingStart,e.InputDataNormalizationStart,e.RegoGenerationStart,e.RegoCompilationStart,e.OpaValidationStart,e.BuildReportStart:  | case e.ProfileParsingDone:  | case e.InputDataParsingDone:  | case e.InputDataNormalizationDone:  | case e.RegoGenerationDone:  | case e.RegoCompilationDone:  | case e.OpaValidationDone:  | case e.BuildReportDone:  } }; call close".
+Definition sk_dispatch_event : string := "if eventChan != nil { send }".
+Definition sk_milestones : string := "call make; range *eventChan { switch { case e.ProfileParsingStart,e.InputDataParsingStart,e.InputDataNormalizationStart,e.RegoGenerationStart,e.RegoCompilationStart,e.OpaValidationStart,e.BuildReportStart:  | case e.ProfileParsingDone: send | case e.InputDataParsingDone: send | case e.InputDataNormalizationDone: send | case e.RegoGenerationDone: send | case e.RegoCompilationDone: send | case e.OpaValidationDone: send | case e.BuildReportDone: send } }; call close".
 Definition sk_index : string := "call make; call make; if isMap {  }; range nodes { typeswitch { case string: if !ok { call make }; call append | case []any: range classes.([]any) { if !ok { call make }; call append } } }; call createLocationIndex; call make; range classIndex[""http://a.ml/vocabularies/document-source-maps#SourceMap""] { call handleSingleOrMultipleNodes; call addLexicalEntryFrom }; return".
 Definition sk_add_lexical_entry : string := "if ok { call Location }".
 Definition sk_create_location_index : string := "if len(sourceInformation) > 0 { call make; call handleSingleOrMultipleNodes; call addElementsOfLoc; return } else { return call make }".
